@@ -493,7 +493,7 @@ fn run_scenario(s: &Value, selftest_all: bool) -> Vec<Value> {
         if let Ok(p) = prove_with(stark, &cfg, &rows, &pis, vparams.clone(), None) {
             let (nat, nd) = native(stark, &p, &cfg, vparams.clone());
             let (assignable, acc, stage, detail) = accept(&p);
-            out.push(json!({"id": id, "db": db, "unsupported_length": true, "native": nat, "native_detail": nd, "assignable": assignable,
+            out.push(json!({"id": id, "db": db, "unsupported_length": true, "mode": s["mode"], "native": nat, "native_detail": nd, "assignable": assignable,
                             "circuit": acc, "stage": stage, "detail": detail}));
         }
     }
